@@ -1,7 +1,9 @@
 /-
   Lemmas behind C18 (response timeout): `stuck` can only be set by a silent fault without a response
   timeout (`Q`), what one request attempt leaves alone (`TVF`), single-iteration facts about
-  `retryLoop`, `runTasks` and `loopReact`.
+  `retryLoop`, `runTasks` and `loopReact`. Last two sections: a dialer that ignores its context
+  (`Cfg.deafDialer`): what the late dial result does (`late_dialOk`, `late_dialFail`), `.exited` is
+  absorbing, and the invariant `NoLate` (without such a dialer the late branches are unreachable).
 -/
 import MqttVerif.Proofs.RetryHandler
 
@@ -171,14 +173,14 @@ theorem Q_connectFailed (w : World) (k : Nat) (h : Q w) : Q (connectFailed w k) 
 
 theorem Q_step (w : World) (e : Ev) (h : Q w) : Q (step w e) := by
   cases e with
-  | start => simp only [step]; split <;> (try split) <;> exact h
+  | start => simp only [step]; split <;> (try split) <;> (try split) <;> exact h
   | waitElapsed => simp only [step]; split <;> exact h
   | cancelCtx =>
     simp only [step]; split; exact h
-    split <;> first | exact h | exact Q_progress _ h
+    split <;> (try split) <;> first | exact h | exact Q_progress _ h
   | app r => simp only [step]; split; exact h; exact Q_progress _ h
-  | dialOk i => simp only [step]; split <;> exact h
-  | dialFail => simp only [step]; split <;> (try split) <;> exact h
+  | dialOk i => simp only [step]; split <;> (try split) <;> first | exact h | exact Q_progress _ h
+  | dialFail => simp only [step]; split <;> (try split) <;> (try split) <;> exact h
   | connackOk sp inb =>
     cases hph : w.phase with
     | connackGate k =>
@@ -666,14 +668,14 @@ theorem afterConnack_stopped (w : World) (sp : Bool) (k : Nat) :
 theorem step_stopped_eq (w : World) (e : Ev) :
     (step w e).stopped = match e with | .disconnect => true | _ => w.stopped := by
   cases e with
-  | start => simp only [step]; split <;> (try split) <;> rfl
+  | start => simp only [step]; split <;> (try split) <;> (try split) <;> rfl
   | app r => simp only [step]; split; rfl; exact (progress_stopped _).2.1
-  | dialOk i => simp only [step]; split <;> rfl
-  | dialFail => simp only [step]; split <;> (try split) <;> rfl
+  | dialOk i => simp only [step]; split <;> (try split) <;> first | rfl | exact (progress_stopped _).2.1
+  | dialFail => simp only [step]; split <;> (try split) <;> (try split) <;> rfl
   | waitElapsed => simp only [step]; split <;> rfl
   | cancelCtx =>
     simp only [step]; split; rfl
-    split <;> first | rfl | exact (progress_stopped _).2.1
+    split <;> (try split) <;> first | rfl | exact (progress_stopped _).2.1
   | connackOk sp inb =>
     dsimp only
     cases hph : w.phase with
@@ -736,12 +738,14 @@ theorem step_stopped (w : World) (e : Ev) (hs : w.stopped = true) (hb : w.phase 
   | start =>
     simp only [step]; split
     · exact same
-    · next hp => split <;> exact ⟨hs, by simp, fun h => absurd h hp⟩
+    · next hp => split <;> (try split) <;> exact ⟨hs, by simp, fun h => absurd h hp⟩
   | app r => simp only [step]; rw [if_pos hs]; exact same
   | dialOk i =>
     simp only [step]; split
     · exact same
-    · exact ⟨hs, by simp, fun _ => ⟨rfl, by simp⟩⟩
+    · split
+      · exact key _ hs (by simp) rfl (fun _ => by simp)
+      · exact ⟨hs, by simp, fun _ => ⟨rfl, by simp⟩⟩
   | dialFail =>
     simp only [step]; split
     · exact same
@@ -753,7 +757,7 @@ theorem step_stopped (w : World) (e : Ev) (hs : w.stopped = true) (hb : w.phase 
     · split
       · exact same
       · next h => exact absurd h hb
-      · exact ⟨hs, by simp, fun _ => ⟨rfl, by simp⟩⟩
+      · next h => split <;> exact ⟨hs, by simp [h], fun _ => ⟨rfl, by simp [h]⟩⟩
       · exact key _ hs (by simp) rfl (fun _ => by simp)
       · exact same
       · exact same
@@ -844,7 +848,7 @@ theorem step_UpReturned (w : World) (e : Ev) (hi : UpReturned w) : UpReturned (s
   | start =>
     simp only [step]; split
     · exact hi
-    · split <;> (intro k h; cases h)
+    · split <;> (try split) <;> (intro k h; cases h)
   | app r =>
     simp only [step]; split
     · exact hi
@@ -852,11 +856,13 @@ theorem step_UpReturned (w : World) (e : Ev) (hi : UpReturned w) : UpReturned (s
   | dialOk i =>
     simp only [step]; split
     · exact hi
-    · intro k h; cases h
+    · split
+      · refine UpReturned_progress _ ?_; intro k h; cases h
+      · intro k h; cases h
   | dialFail =>
     simp only [step]; split
     · exact hi
-    · split <;> (intro k h; cases h)
+    · split <;> (try split) <;> (intro k h; cases h)
   | waitElapsed =>
     simp only [step]; split
     · intro k h; cases h
@@ -867,7 +873,7 @@ theorem step_UpReturned (w : World) (e : Ev) (hi : UpReturned w) : UpReturned (s
     · split
       · exact hi
       · intro k h; cases h
-      · intro k h; cases h
+      · next hdg => split <;> (intro k h; simp [hdg] at h)
       · refine UpReturned_progress _ ?_; intro k h; cases h
       · exact hi
       · exact hi
@@ -943,5 +949,313 @@ theorem disconnect_in_backoff (w : World) (hp : w.phase = .backoff) (hs : w.stop
       · exact absurd h.1 h2
   · simp only [step, hs, Bool.false_eq_true, if_false]
     split <;> exact (progress_stopped _).1
+
+/-! ### a dialer that ignores its context (`Cfg.deafDialer`): the dial that is in flight when the context
+    given to the first ReconnectClient.Connect is cancelled goes on, and the loop acts on its result -/
+
+/-- the loop is not watching a connection: `progress` is the task goroutine alone -/
+theorem progress_not_up (w : World) (h : ∀ k, w.phase ≠ .up k) : progress w = runTasks (w.taskQ.length + 1) w := by
+  unfold progress
+  have hv := view_runTasks (w.taskQ.length + 1) w
+  generalize runTasks (w.taskQ.length + 1) w = w1 at hv ⊢
+  have hp : w1.phase = w.phase := by
+    simp only [view, View.mk.injEq] at hv; exact hv.2.2.2.2.1
+  unfold loopReact
+  split
+  · next k hk => exact absurd (hp.symm.trans hk) (h k)
+  · rfl
+
+/-- the world in which the task goroutine starts when the transport of a cancelled first Connect arrives:
+    a connection object that carries CONNECT and is already closed, the loop gone -/
+def lateWorld (w : World) (i : Nat) : World :=
+  { w with conns := w.conns ++ [{ ctr := i, handler := w.handler, pkts := [(.connect, .sent .ok)], alive := false }],
+           cli := some w.conns.length, connReady := true, goroutine := true,
+           gConnected := if w.goroutine ∧ w.gConnected ∧ ¬ w.stuck then false else w.gConnected,
+           phase := .exited }
+
+theorem late_dialOk_step (w : World) (i : Nat) (hp : w.phase = .dialGate) (hc : w.ctxCancelled = true)
+    (hr : w.connectReturned = none) : step w (.dialOk i) = progress (lateWorld w i) := by
+  simp only [step]
+  rw [if_neg (by simp [hp]), if_pos (by simp [hc, hr])]
+  rfl
+
+/-- `.dialOk` after the cancellation of the first Connect (possible only with a deaf dialer, `no_late_dial`):
+    one more connection object, the client's current one, carrying the registered handler, closed from the
+    start; the loop has exited: no back-off, no further DialContext call, nothing handed over; Connect has
+    returned (and goes on returning) the context's error only -/
+theorem late_dialOk (w : World) (i : Nat) (hp : w.phase = .dialGate) (hc : w.ctxCancelled = true)
+    (hr : w.connectReturned = none) :
+    let w' := step w (.dialOk i)
+    w'.phase = .exited ∧ w'.cli = some w.conns.length ∧ w'.conns.length = w.conns.length + 1 ∧
+    (getConn w' w.conns.length).alive = false ∧ (getConn w' w.conns.length).handler = w.handler ∧
+    w'.handler = w.handler ∧ w'.handled = w.handled ∧ w'.dials = w.dials ∧ w'.waits = w.waits ∧
+    w'.waitExp = w.waitExp ∧ w'.connectReturned = none ∧ w'.connectErr = w.connectErr ∧ w'.stopped = w.stopped ∧
+    (w.taskQ = [] → (getConn w' w.conns.length).pkts = [(.connect, .sent .ok)]) := by
+  dsimp only
+  rw [late_dialOk_step w i hp hc hr, progress_not_up _ (by intro k h; cases h)]
+  have hv := view_runTasks ((lateWorld w i).taskQ.length + 1) (lateWorld w i)
+  have hl := lle_runTasks ((lateWorld w i).taskQ.length + 1) (lateWorld w i)
+  have hn := runTasks_nil ((lateWorld w i).taskQ.length + 1) (lateWorld w i)
+  generalize runTasks ((lateWorld w i).taskQ.length + 1) (lateWorld w i) = w1 at hv hl hn
+  simp only [view, View.mk.injEq] at hv
+  obtain ⟨_, v2, v3, v4, v5, v6, v7, v8, v9, _, _, _, v13, _, _, _, v17⟩ := hv
+  have hk : (lateWorld w i).conns.getD w.conns.length {} =
+      { ctr := i, handler := w.handler, pkts := [(.connect, .sent .ok)], alive := false } := by
+    simp [lateWorld]
+  refine ⟨v5, v3, ?_, ?_, ?_, v2, v4, v6, v8, v9, v13.trans hr, v17, v7, ?_⟩
+  · rw [hl.1]; simp [lateWorld]
+  · exact (hl.2 w.conns.length).2 (by rw [hk])
+  · show (w1.conns.getD _ {}).handler = _
+    rw [(hl.2 w.conns.length).1, hk]
+  · intro hq
+    rcases hn (Or.inl hq) with e | e <;> rw [e] <;> simp [getConn, lateWorld]
+
+/-- `.dialFail` after the cancellation of the first Connect: the loop's select on ctx.Done() returns; no
+    back-off is started, nothing else changes -/
+theorem late_dialFail (w : World) (hp : w.phase = .dialGate) (hc : w.ctxCancelled = true)
+    (hr : w.connectReturned = none) : step w .dialFail = { w with phase := .exited } := by
+  simp only [step]
+  rw [if_neg (by simp [hp])]
+  split
+  · rfl
+  · rw [if_pos (by simp [hc, hr])]
+
+/-- cancellation while a deaf dialer is dialling: ReconnectClient.Connect returns the context's error, the
+    loop stays inside DialContext -/
+theorem cancel_deaf_dial (w : World) (hd : w.cfg.deafDialer = true) (hp : w.phase = .dialGate)
+    (hc : w.ctxCancelled = false) (hr : w.connectReturned = none) :
+    step w .cancelCtx = { w with ctxCancelled := true, connectErr := true } := by
+  simp only [step, hp, hc, hr, hd, Bool.false_eq_true, Option.isSome_none, or_self, if_false, if_true]
+
+/-- once the loop has exited it stays exited and never calls DialContext again -/
+theorem exited_step (w : World) (e : Ev) (h : w.phase = .exited) :
+    (step w e).phase = .exited ∧ (step w e).dials = w.dials := by
+  have key : ∀ W : World, W.phase = .exited → W.dials = w.dials →
+      (progress W).phase = .exited ∧ (progress W).dials = w.dials := by
+    intro W h1 h2
+    refine ⟨?_, (progress_stopped W).1.trans h2⟩
+    rcases progress_phase W with h' | h' | ⟨_, _, k, h'⟩
+    · exact h'.trans h1
+    · exact h'
+    · rw [h1] at h'; cases h'
+  cases e with
+  | start => rw [show step w .start = w by simp [step, h]]; exact ⟨h, rfl⟩
+  | app r => simp only [step]; split; exact ⟨h, rfl⟩; exact key _ h rfl
+  | dialOk i => rw [show step w (.dialOk i) = w by simp [step, h]]; exact ⟨h, rfl⟩
+  | dialFail => rw [show step w .dialFail = w by simp [step, h]]; exact ⟨h, rfl⟩
+  | waitElapsed => rw [show step w .waitElapsed = w by simp [step, h]]; exact ⟨h, rfl⟩
+  | cancelCtx =>
+    simp only [step]; split
+    · exact ⟨h, rfl⟩
+    · split <;> first | exact ⟨h, rfl⟩ | (next h' => rw [h] at h'; cases h')
+  | connackOk sp inb => rw [show step w (.connackOk sp inb) = w by simp only [step, h]]; exact ⟨h, rfl⟩
+  | connackRefused => rw [show step w .connackRefused = w by simp only [step, h]]; exact ⟨h, rfl⟩
+  | connackNever => rw [show step w .connackNever = w by simp only [step, h]]; exact ⟨h, rfl⟩
+  | peerClose => rw [show step w .peerClose = w by simp only [step, h]]; exact ⟨h, rfl⟩
+  | inbound m q => rw [show step w (.inbound m q) = w by simp only [step, h]]; exact ⟨h, rfl⟩
+  | handle hd => simp only [step]; split <;> exact ⟨h, rfl⟩
+  | disconnect =>
+    simp only [step]; split; exact ⟨h, rfl⟩
+    have := key { pushTask w .disconnect with stopped := true } h rfl
+    split
+    · next h' => rw [this.1] at h'; cases h'
+    · next h' => rw [this.1] at h'; cases h'
+    · exact this
+
+theorem exited_foldl_dials (es : List Ev) (w : World) (h : w.phase = .exited) :
+    (es.foldl step w).phase = .exited ∧ (es.foldl step w).dials = w.dials := by
+  induction es generalizing w with
+  | nil => exact ⟨h, rfl⟩
+  | cons e es ih =>
+    obtain ⟨h1, h2⟩ := exited_step w e h
+    obtain ⟨i1, i2⟩ := ih (step w e) h1
+    exact ⟨i1, i2.trans h2⟩
+
+/-! ### with a dialer that honours its context the late-dial branches of `.dialOk` / `.dialFail` are never
+    taken: while the first Connect's context is cancelled and Connect has not succeeded, the loop is not
+    started or has exited -/
+
+def NoLate (w : World) : Prop :=
+  w.cfg.deafDialer = false ∧
+  (w.ctxCancelled = true → w.connectReturned = none → w.phase = .idle ∨ w.phase = .exited)
+
+theorem progress_keep (W : World) :
+    (progress W).cfg = W.cfg ∧ (progress W).ctxCancelled = W.ctxCancelled ∧
+    (progress W).connectReturned = W.connectReturned ∧
+    (W.phase = .idle ∨ W.phase = .exited → (progress W).phase = W.phase) := by
+  refine ⟨(pf_progress W).cfg, ?_, (progress_stopped W).2.2, ?_⟩
+  · unfold progress
+    have hv := view_runTasks (W.taskQ.length + 1) W
+    generalize runTasks (W.taskQ.length + 1) W = w1 at hv
+    simp only [view, View.mk.injEq] at hv
+    have : w1.ctxCancelled = W.ctxCancelled := hv.2.2.2.2.2.2.2.2.2.2.2.2.2.2.2.1
+    rw [← this]
+    unfold loopReact
+    split
+    · split
+      · rfl
+      · split <;> rfl
+    · rfl
+  · intro h
+    rcases progress_phase W with h' | h' | ⟨_, _, k, h'⟩
+    · exact h'
+    · rcases h with h | h
+      · rw [progress_not_up W (by intro k hk; rw [h] at hk; cases hk)]
+        have hv := view_runTasks (W.taskQ.length + 1) W
+        simp only [view, View.mk.injEq] at hv
+        exact hv.2.2.2.2.1
+      · rw [h', h]
+    · rcases h with h | h <;> (rw [h] at h'; cases h')
+
+theorem connectFailed_ctx (w : World) (k : Nat) :
+    (connectFailed w k).ctxCancelled = w.ctxCancelled ∧ (connectFailed w k).connectReturned = w.connectReturned := by
+  unfold connectFailed; dsimp only; split <;> exact ⟨rfl, rfl⟩
+
+theorem deliverInbound_ctx (w : World) (k m q : Nat) : (deliverInbound w k m q).ctxCancelled = w.ctxCancelled := by
+  unfold deliverInbound
+  dsimp only
+  split
+  · rfl
+  · split <;> split <;> simp [logPkt, setConn]
+
+theorem step_NoLate (w : World) (e : Ev) (hi : NoLate w) (hu : UpReturned w) : NoLate (step w e) := by
+  have hnd : w.cfg.deafDialer = false := hi.1
+  -- a world that keeps the configuration, the cancellation flag and what Connect returned, and stays
+  -- un-started / exited if `w` was
+  have keep : ∀ W : World, W.cfg = w.cfg → W.ctxCancelled = w.ctxCancelled →
+      W.connectReturned = w.connectReturned →
+      (w.phase = .idle ∨ w.phase = .exited → W.phase = .idle ∨ W.phase = .exited) → NoLate W := by
+    intro W h1 h2 h3 h4
+    refine ⟨by rw [h1]; exact hnd, fun hc hr => ?_⟩
+    rw [h2] at hc; rw [h3] at hr
+    exact h4 (hi.2 hc hr)
+  have keepP : ∀ W : World, W.cfg = w.cfg → W.ctxCancelled = w.ctxCancelled →
+      W.connectReturned = w.connectReturned →
+      (w.phase = .idle ∨ w.phase = .exited → W.phase = .idle ∨ W.phase = .exited) → NoLate (progress W) := by
+    intro W h1 h2 h3 h4
+    obtain ⟨p1, p2, p3, p4⟩ := progress_keep W
+    refine keep _ (p1.trans h1) (p2.trans h2) (p3.trans h3) (fun h => ?_)
+    rw [p4 (h4 h)]; exact h4 h
+  -- the loop is dialling, connecting or backing off: the guard is false
+  have nx : ∀ p : Phase, w.phase = p → p ≠ .idle → p ≠ .exited → ¬ (w.phase = .idle ∨ w.phase = .exited) := by
+    intro p hp h1 h2 h
+    rcases h with h | h
+    · exact h1 (hp.symm.trans h)
+    · exact h2 (hp.symm.trans h)
+  cases e with
+  | start =>
+    simp only [step]; split
+    · exact hi
+    · simp only [hnd, Bool.false_eq_true, if_false]
+      split
+      · exact keep _ rfl rfl rfl (fun _ => Or.inr rfl)
+      · next hc => exact ⟨hnd, fun a _ => absurd a hc⟩
+  | app r =>
+    simp only [step]; split
+    · exact keep _ rfl rfl rfl id
+    · exact keepP _ rfl rfl rfl id
+  | dialOk i =>
+    simp only [step]; split
+    · exact hi
+    · next hp =>
+      have hp : w.phase = .dialGate := by simpa using hp
+      have hx := nx _ hp (by simp) (by simp)
+      have hnl : ¬ (w.ctxCancelled = true ∧ w.connectReturned.isNone = true) :=
+        fun ⟨a, b⟩ => hx (hi.2 a (by simpa using b))
+      rw [if_neg hnl]
+      exact keep _ rfl rfl rfl (fun h => absurd h hx)
+  | dialFail =>
+    simp only [step]; split
+    · exact hi
+    · next hp =>
+      have hp : w.phase = .dialGate := by simpa using hp
+      have hx := nx _ hp (by simp) (by simp)
+      have hnl : ¬ (w.ctxCancelled = true ∧ w.connectReturned.isNone = true) :=
+        fun ⟨a, b⟩ => hx (hi.2 a (by simpa using b))
+      rw [if_neg hnl]
+      split <;> exact keep _ rfl rfl rfl (fun h => absurd h hx)
+  | waitElapsed =>
+    simp only [step]; split
+    · next hp => exact keep _ rfl rfl rfl (fun h => absurd h (nx _ hp (by simp) (by simp)))
+    · exact hi
+  | cancelCtx =>
+    simp only [step]; split
+    · exact hi
+    · next hg =>
+      simp only [hnd, Bool.false_eq_true, if_false]
+      split
+      · next hp => exact ⟨hnd, fun _ _ => Or.inl hp⟩
+      · exact ⟨hnd, fun _ _ => Or.inr rfl⟩
+      · exact ⟨hnd, fun _ _ => Or.inr rfl⟩
+      · next k hp =>
+        obtain ⟨p1, _, _, p4⟩ := progress_keep
+          { kill { w with ctxCancelled := true, connReady := true } k with phase := .exited, connectErr := true }
+        refine ⟨by rw [p1]; exact hnd, fun _ _ => Or.inr ?_⟩
+        rw [p4 (Or.inr rfl)]
+      · next hp => exact ⟨hnd, fun _ _ => Or.inr hp⟩
+      · next k hp =>
+        -- `.up`: Connect has returned, so the guard of `.cancelCtx` is false
+        exact absurd (Or.inr (hu k hp)) hg
+  | connackOk sp inb =>
+    cases hph : w.phase with
+    | connackGate k =>
+      rw [connackOk_step w k sp inb hph]
+      obtain ⟨_, _, h3, _⟩ := connackOk_pre w k sp inb
+      obtain ⟨p1, _, p3, _⟩ := progress_keep (afterConnack (deliverAll { setConn w k { getConn w k with connected := true } with
+          broker := if sp then w.broker else w.broker.clearSession } k inb) sp k)
+      refine ⟨by rw [p1, h3]; exact hnd, fun _ hr => ?_⟩
+      rw [p3] at hr
+      have := (afterConnack_stopped (deliverAll { setConn w k { getConn w k with connected := true } with
+          broker := if sp then w.broker else w.broker.clearSession } k inb) sp k).2.2
+      rw [hr] at this; cases this
+    | _ => rw [show step w (.connackOk sp inb) = w by simp only [step, hph]]; exact hi
+  | connackRefused =>
+    simp only [step]; split
+    · next k hp =>
+      exact keepP _ (connectFailed_frame w k).2.2.1 (connectFailed_ctx w k).1 (connectFailed_ctx w k).2
+        (fun h => absurd h (nx _ hp (by simp) (by simp)))
+    · exact hi
+  | connackNever =>
+    simp only [step]; split
+    · next k hp =>
+      split
+      · exact keepP _ (connectFailed_frame w k).2.2.1 (connectFailed_ctx w k).1 (connectFailed_ctx w k).2
+          (fun h => absurd h (nx _ hp (by simp) (by simp)))
+      · exact hi
+    · exact hi
+  | peerClose =>
+    simp only [step]; split
+    · exact keepP _ rfl rfl rfl id
+    · exact hi
+  | inbound m q =>
+    simp only [step]; split
+    · next k hp =>
+      exact keep _ (deliverInbound_frame w k m q).1 (deliverInbound_ctx w k m q) (deliverInbound_dials w k m q).2
+        (fun h => absurd h (nx _ hp (by simp) (by simp)))
+    · exact hi
+  | handle hd =>
+    simp only [step]; split <;> exact keep _ rfl rfl rfl id
+  | disconnect =>
+    simp only [step]; split
+    · exact hi
+    · have hW : NoLate (progress { pushTask w .disconnect with stopped := true }) :=
+        keepP _ rfl rfl rfl id
+      split
+      · exact ⟨hW.1, fun _ _ => Or.inr rfl⟩
+      · exact ⟨hW.1, fun _ _ => Or.inr rfl⟩
+      · exact hW
+
+theorem exec_NoLate (s : Script) (h : s.cfg.deafDialer = false) : NoLate (exec s) := by
+  obtain ⟨cfg, method, faults, evs⟩ := s
+  induction evs using snoc_induction with
+  | nil => exact ⟨h, fun hc => by simp [exec, init] at hc⟩
+  | snoc evs e ih => rw [exec_snoc]; exact step_NoLate _ _ (ih h) (exec_UpReturned _)
+
+/-- the guard of the two late-dial branches is false in every reachable world of a script whose dialer
+    honours its context: there the step function is the one without `deafDialer` -/
+theorem no_late_dial (s : Script) (h : s.cfg.deafDialer = false) :
+    ¬ ((exec s).phase = .dialGate ∧ (exec s).ctxCancelled = true ∧ (exec s).connectReturned = none) := by
+  intro ⟨hp, hc, hr⟩
+  rcases (exec_NoLate s h).2 hc hr with h' | h' <;> (rw [hp] at h'; cases h')
 
 end Mqtt.Retry
